@@ -1,1 +1,85 @@
-From QH Require Import Bytes SocketM SockSpec.
+(* Properties_C03.v — C03: every response on the wire is exactly the status, headers and body that were set. *)
+From Coq Require Import String List Ascii ZArith Permutation.
+From QH Require Import Bytes HeaderMap HeaderProofs Parser SocketM SockProofs C03Proofs.
+Import ListNotations.
+Local Open Scope Z_scope.
+
+(* one status line, header block, blank line - exactly once and before the first body byte, with
+   or without an explicit writeHeaders() - then exactly the written chunks, in order *)
+Theorem C03_wire_shape : forall e s chunks explicit,
+  writable s -> wst s = WNone -> (explicit = true \/ chunks <> []) ->
+  let r := (if explicit then write_headers s else (s, [])) >>= fun s' => write_all e s' chunks in
+  tx_of (snd r) = response_head (code s) (reason s) (rh s) ++ concat chunks.
+Proof. exact wire_shape. Qed.
+Print Assumptions C03_wire_shape.
+
+(* the header block has one line "name: value" per entry of the header map *)
+Theorem C03_head_shape : forall c r h,
+  response_head c r h =
+  B "HTTP/1.0 " ++ number c ++ [SP] ++ r ++ CRLF ++
+  concat (map (fun kv => fst kv ++ B ": " ++ snd kv ++ CRLF) h) ++ CRLF.
+Proof. exact head_shape. Qed.
+Print Assumptions C03_head_shape.
+
+(* what the setters leave in the map: nothing lost, duplicated or moved to another name *)
+Theorem C03_set_header_replace : forall s name value,
+  Permutation (rh (set_header s name value true))
+              ((name, value) :: filter (fun kv => negb (ieq (fst kv) name)) (rh s)).
+Proof. exact set_header_replace. Qed.
+Print Assumptions C03_set_header_replace.
+
+Theorem C03_set_header_append_new : forall s name value,
+  hm_contains name (rh s) = false ->
+  Permutation (rh (set_header s name value false)) ((name, value) :: rh s).
+Proof. exact set_header_append_new. Qed.
+Print Assumptions C03_set_header_append_new.
+
+Theorem C03_set_header_append_existing : forall s name value,
+  hm_contains name (rh s) = true ->
+  exists pre k0 v0 post, rh s = pre ++ (k0, v0) :: post /\ ieq k0 name = true /\
+    Forall (fun kv => ieq (fst kv) name = false) pre /\
+    rh (set_header s name value false) = pre ++ (k0, v0 ++ B ", " ++ value) :: post.
+Proof. exact set_header_append_existing. Qed.
+Print Assumptions C03_set_header_append_existing.
+
+Theorem C03_set_headers_all : forall e s l,
+  Permutation (rh (fst (apply_aop e s (ASetHeaders l)))) l.
+Proof. exact set_headers_all. Qed.
+Print Assumptions C03_set_headers_all.
+
+(* the convenience responses carry a Content-Length equal to their actual body length and close *)
+Theorem C03_error_response : forall e s c r,
+  writable s -> wst s = WNone -> rh s = [] ->
+  let reason' := match r with Some x => x | None => status_reason c end in
+  let page := error_page c reason' (version e) in
+  snd (write_error e s c r) =
+    [ETx (response_head c reason' [(B "Content-Length", number (blen page)); (B "Content-Type", B "text/html")]);
+     ETx page; EClose] /\
+  tcp_open (fst (write_error e s c r)) = false.
+Proof. exact error_response. Qed.
+Print Assumptions C03_error_response.
+
+Theorem C03_redirect_response : forall s path perm,
+  writable s -> wst s = WNone -> rh s = [] ->
+  snd (write_redirect s path perm) =
+    [ETx (response_head (if perm then 301 else 302) (status_reason (if perm then 301 else 302))
+            [(B "Content-Length", B "0"); (B "Location", path)]); EClose] /\
+  tcp_open (fst (write_redirect s path perm)) = false.
+Proof. exact redirect_response. Qed.
+Print Assumptions C03_redirect_response.
+
+Theorem C03_json_response : forall s data c,
+  writable s -> wst s = WNone -> rh s = [] -> data <> [] ->
+  snd (write_json s data c) =
+    [ETx (response_head c (status_reason c)
+            [(B "Content-Length", number (blen data)); (B "Content-Type", B "application/json")]);
+     ETx data; EClose] /\
+  tcp_open (fst (write_json s data c)) = false.
+Proof. exact json_response. Qed.
+Print Assumptions C03_json_response.
+
+(* everything written before close() precedes the close, and nothing follows it (with C19) *)
+Theorem C03_nothing_after_close : forall e p s ops k,
+  tcp_open s = false -> no_tx (snd (run_ops_from e p k s ops)).
+Proof. exact silent_after_close. Qed.
+Print Assumptions C03_nothing_after_close.
